@@ -65,6 +65,22 @@ def run_case(case, rec, cid):
         return True
     if k == "alt":
         c = case
+        if c.get("reduced"):      # year-month and year-only precision of the date-time-like spelling (no time part)
+            if c["reduced"] == "ym":
+                alt, desg = "P%04d-%02d" % (c["y"], c["mo"]), "P%dY%dM" % (c["y"], c["mo"])
+            else:
+                alt, desg = "P%04d" % c["y"], "P%dY" % c["y"]
+
+            def h0():
+                qa, qd = _DP.parse(alt), _DP.parse(desg)
+                return dict(qa=proj_dur(qa), qd=proj_dur(qd), eq=bool(qa == qd) and hash(qa) == hash(qd) and not bool(qa < qd))
+            st, v = outcome(h0)
+            if st == "ok":
+                rec.ev("DurAlt", cid, alt=render.codes(alt), desg=render.codes(desg), ok=True, cls="", **v)
+            else:
+                rec.ev("DurAlt", cid, alt=render.codes(alt), desg=render.codes(desg), ok=False, cls=type(v).__name__, qa=proj_dur(None),
+                       qd=proj_dur(None), eq=False)
+            return True
         if c["ord"]:
             date = ("%04d%03d" if c["basic"] else "%04d-%03d") % (c["y"], c["d"])
             desg = "P%dY%dD" % (c["y"], c["d"])
@@ -130,6 +146,8 @@ def expand(job):
             if last and rnd.random() < 0.4:
                 d[last] = d[last] + sg * rnd.choice([0.5, 0.25, 0.125, 0.1, 0.3, 0.000001, 0.999999, 0.75])
             yield {"kind": "obj", "d": d}
+        elif x < 0.88:
+            yield {"kind": "alt", "reduced": rnd.choice(["ym", "y"]), "y": rnd.choice([0, 1, 4, 1999, rnd.randint(0, 9999)]), "mo": rnd.randint(0, 12)}
         else:
             ordinal = rnd.random() < 0.3
             yield {"kind": "alt", "y": rnd.choice([0, 1, 4, 10, 1999, rnd.randint(0, 9999)]), "mo": rnd.randint(0, 12) if not ordinal else 0,
